@@ -382,6 +382,45 @@ FIXTURES = {
 }
 
 
+# clocks whose reading depends on what other threads of the process do
+PROCESS_WIDE_CLOCKS = {2: 'CLOCK_PROCESS_CPUTIME_ID'}
+THREAD_INDEPENDENT_CLOCKS = {0: 'CLOCK_REALTIME', 1: 'CLOCK_MONOTONIC', 3: 'CLOCK_THREAD_CPUTIME_ID',
+                             4: 'CLOCK_MONOTONIC_RAW', 5: 'CLOCK_REALTIME_COARSE',
+                             6: 'CLOCK_MONOTONIC_COARSE', 7: 'CLOCK_BOOTTIME'}
+PROCESS_WIDE_CALLS = {'clock': 'processor time of the whole process', 'times': 'process times',
+                      'getrusage': 'resource usage (RUSAGE_SELF is process-wide)'}
+
+
+def r9_5(ctx, S):
+    """scan code measures time with clocks that other threads cannot advance"""
+    n = 0
+    for f in S:
+        if not f.file.startswith('libyara/') and not ctx.fixture:
+            continue
+        k = 0
+        for c in f.calls():
+            cal = c.get('callee')
+            if cal == 'clock_gettime':
+                v = cu.const_of(cu.strip_casts(f, f.call_args(c)[0]))
+                n += 1
+                ok = v in THREAD_INDEPENDENT_CLOCKS
+                ctx.ob('R9.5', '%s:clock_gettime#%d:thread-independent-clock' % (f.name, k), ok, f.loc(c),
+                       'reads %s' % THREAD_INDEPENDENT_CLOCKS.get(v) if ok else
+                       'reads clock %s: its value is advanced by every running thread of the process, so a '
+                       "scanner's timeout is consumed by the other scans running concurrently" % (
+                           PROCESS_WIDE_CLOCKS.get(v, 'id %s' % v)))
+                k += 1
+            elif cal in PROCESS_WIDE_CALLS:
+                n += 1
+                arg = cu.const_of(cu.strip_casts(f, f.call_args(c)[0])) if f.call_args(c) else None
+                ok = cal == 'getrusage' and arg == 1      # RUSAGE_THREAD
+                ctx.ob('R9.5', '%s:%s#%d:thread-independent-clock' % (f.name, cal, k), ok, f.loc(c),
+                       'per-thread usage' if ok else
+                       '%s() returns %s: shared between concurrent scans' % (cal, PROCESS_WIDE_CALLS[cal]))
+                k += 1
+    ctx.count('time_sources_read_by_scan_code', n)
+
+
 def run(ctx):
     cg = CallGraph(ctx.prog)
     E = Effects(ctx.prog, cg)
@@ -394,3 +433,5 @@ def run(ctx):
     ctx.floor('R9.3', 5)
     r9_4(ctx)
     ctx.floor('R9.4', 2)
+    r9_5(ctx, S)
+    ctx.floor('R9.5', 2)
